@@ -1,6 +1,7 @@
 import RjModel.Lemmas.PlannerInv
 import RjModel.Generated.Decisions
 import RjModel.Generated.ProcessEntries
+import RjModel.Generated.OrderedMapSrc
 /-! # C13 — what gets deleted and copied does not depend on message timing
 
 Model objects: `prun c PState.init evs` is `query_entries` fed with the merged arrival sequence `evs`
@@ -170,6 +171,31 @@ theorem C13_translated_run_is_prun (c : PCfg) (s : PState) (evs : List Ev) : pru
     cases ev with
     | src p e => simp only [prunSrc, prun, (C13_process_entries_are_the_sources).2.1, ih]
     | dst p d => simp only [prunSrc, prun, (C13_process_entries_are_the_sources).2.2, ih]
+
+
+/-- **`ordered_map.rs`, translated on every run, is the model's `OMap`**: every method body is read as a sequence of statements out of a
+small table (`Vec::push` / `reverse` / `iter().filter_map`, `HashMap::insert` / `remove` / `get` / `get_mut().unwrap()`; the `HashMap` itself is
+the association list with `lookup` / `erase` - that reading is the trusted part) and the resulting functions are the model's, for every
+map, key and value; `update` panics (`none`) exactly when the key is absent. -/
+theorem C13_ordered_map_is_the_sources {V : Type} : Generated.orderedMapTranslated = true ∧
+    (∀ (m : OMap V) k v, Generated.omAdd m k v = some (m.add k v)) ∧
+    (∀ (m : OMap V) k, Generated.omRemove m k = some (m.remove k)) ∧
+    (∀ (m : OMap V) k v, Generated.omUpdate m k v = m.update k v) ∧
+    (∀ (m : OMap V), Generated.omReverse m = some m.reverseOrder) ∧
+    (∀ (m : OMap V) k, Generated.omLookup m k = m.get k) ∧
+    (∀ (m : OMap V), Generated.omIter m = m.iter) := by
+  refine ⟨by decide, ?_, ?_, ?_, ?_, ?_, ?_⟩
+  · intro m k v; rfl
+  · intro m k; rfl
+  · intro m k v
+    simp only [Generated.omUpdate, OMap.update, OMap.get]
+    by_cases h : (lookup m.map k).isSome = true <;> simp [h]
+  · intro m; rfl
+  · intro m k; rfl
+  · intro m
+    simp only [Generated.omIter, OMap.iter, OMap.get]
+    congr 1; funext k
+    cases lookup m.map k <;> rfl
 
 
 end Rj.C13
